@@ -270,6 +270,17 @@ def contract_others(ctx):
             'distance/abs': lambda: strength.distance_strength_of_connection(A, V, theta=0.5, relative_drop=False),
             'affinity': lambda: strength.affinity_distance(A, R=3, k=5),
             'algebraic_distance': lambda: strength.algebraic_distance(A, R=3, k=5),
+            'algebraic_distance/p=1': lambda: strength.algebraic_distance(A, R=3, k=5, p=1),
+            'algebraic_distance/p=3': lambda: strength.algebraic_distance(A, R=3, k=5, p=3),
+            'algebraic_distance/p=1.5': lambda: strength.algebraic_distance(A, R=3, k=5, p=1.5),
+            'algebraic_distance/p=inf': lambda: strength.algebraic_distance(A, R=3, k=5, p=np.inf),
+            'affinity/q=3': lambda: strength.affinity_distance(A, R=3, k=5),
+            # the same measures on -A (negative definite) and on a matrix with rows of alternating sign: still a matrix of
+            # finite numbers in [0, 1] on the pattern of A
+            'energy/negative-definite': lambda: strength.energy_based_strength_of_connection(sp.csr_array(-A), theta=0.1, k=2),
+            'energy/alternating-signs': lambda: strength.energy_based_strength_of_connection(
+                sp.csr_array(sp.diags_array((-1.0) ** np.arange(n)) @ A), theta=0.1, k=2),
+            'evolution/negative-definite': lambda: strength.evolution_strength_of_connection(sp.csr_array(-A), np.ones((n, 1)), epsilon=4.0, k=2),
         }
         for mname, f in fns.items():
             c = dict(case, measure=mname)
@@ -407,6 +418,34 @@ def contract_others(ctx):
                     if Sb.shape != Sn.shape or not np.array_equal(Sb, Sn):
                         ctx.fail('classical/%s/bsr/not-the-nodal-rule' % nrm,
                                  'block-wise strength differs from the scalar rule applied to the reduced nodal matrix', c)
+    # BSR input with block=False: the point-wise rule on the scalar matrix, then amalgamation -- block (I, J) is strong iff some
+    # entry of it is strong in the point-wise strength matrix of the same data stored as CSR
+    for bs in (2, 3):
+        for rep in range(4 if not ctx.thorough else 12):
+            nb = rng.choice([2, 3, 4])
+            n = nb * bs
+            D = gen.poisson_like(rng, n)
+            if rep % 2 == 1:
+                D = D * np.array([[rng.choice([1.0, 1.0, -0.5]) if i != j else 1.0 for j in range(n)] for i in range(n)])   # positive couplings too
+            Ab = sp.bsr_array(D, blocksize=(bs, bs))
+            for nrm in ('abs', 'min'):
+                for th in (0.0, 0.25, 0.6):
+                    c = dict(matrix=D.tolist(), blocksize=bs, measure='classical/%s/bsr-pointwise' % nrm, theta=th)
+                    ctx.mark(c)
+                    try:
+                        Sb = sp.csr_array(strength.classical_strength_of_connection(Ab, th, block=False, norm=nrm)).toarray()
+                        Sp_ = sp.csr_array(strength.classical_strength_of_connection(sp.csr_array(D), th, norm=nrm))
+                        Sp_.eliminate_zeros()
+                        Sp_ = Sp_.toarray()
+                    except Exception as e:   # noqa
+                        ctx.fail('classical/%s/bsr-pointwise/raises' % nrm, repr(e), c)
+                        continue
+                    ctx.case(('bsr-pointwise', nrm, bs, th, D.tobytes()), True)
+                    ctx.count('contract:classical/%s/bsr-pointwise' % nrm)
+                    want = np.abs(Sp_).reshape(nb, bs, nb, bs).sum(axis=(1, 3)) != 0
+                    if Sb.shape != (nb, nb) or np.any((Sb != 0) != want):
+                        ctx.fail('classical/%s/bsr/pointwise-amalgamation' % nrm,
+                                 'block=False: the nodal pattern differs from "some entry of the block is strong in the point-wise rule" (theta=%g)' % th, c)
     # symmetric strength on BSR input (real and complex): the nodal rule with Frobenius norms of the blocks,
     #   keep (I,J) iff |A_IJ|_F^2 >= theta^2 |A_II|_F |A_JJ|_F   (diagonal blocks always kept)
     for bs in (2, 3):
